@@ -182,3 +182,34 @@ def wf(L):
         if p.kind == VARYING and L[i - 1].kind != PLAIN:
             return False
     return True
+
+
+# ---------------------------------------------------------------- run tables (elementTraits.hpp)
+def lxm(p):
+    return p.ty in (TU8, TBYTE)
+
+
+def eqm(p):
+    return p.ty in (TUINT, TSINT, TU8, TS8, TBYTE)
+
+
+def runs(pred, bpad, bspan, L):
+    """calculate_consecutive_indices: 'S' skip, 'M' manual, or the index of the run's last field"""
+    out = ["S"] * len(L)
+    pv = prevs(L)
+    index = 0
+    for i, p in enumerate(L):
+        if pred(p):
+            if bpad and i != 0 and pv[i] < p.align:
+                index = i
+            out[index] = i
+            if bspan and p.kind != PLAIN:
+                index = i + 1
+        else:
+            index = i + 1
+            out[i] = "M"
+    return out
+
+
+def lex_components(L):
+    return sum(1 for x in runs(lxm, True, False, L) if x != "S")
